@@ -73,7 +73,8 @@ def is_panic_helper(F, d):
             terms_ = [bb['t'] for bb in b['blocks'] if bb is not None]
             calls_ = [t for t in terms_ if t[0] == 'call']
             r = bool(calls_) and all(t[0] in ('call', 'unreachable', 'goto', 'drop', 'resume') for t in terms_) and \
-                all(re.search(r'(^|::)(core|std)::(panicking|rt)::', t[1].get('d', '')) for t in calls_)
+                all(re.search(r'(^|::)(core|std)::(panicking|rt)::|(^|::)(core|std)::fmt::(Arguments|rt::Argument)\b', t[1].get('d', '')) for t in calls_) and \
+                any(re.search(r'(^|::)(core|std)::(panicking|rt)::', t[1].get('d', '')) for t in calls_)
             break
     _PANIC_HELPERS[key] = r
     return r
